@@ -209,8 +209,12 @@ func (cp *FreeList) ToGC() (string, error) {
 		return "", err
 	}
 
+	closedFile := cp.file
 	cp.file, err = os.OpenFile(fileName, os.O_RDWR|os.O_APPEND|os.O_CREATE, 0o644)
 	if err != nil {
+		// Keep the closed file, not nil, so that later calls fail with an
+		// error instead of a nil pointer dereference.
+		cp.file = closedFile
 		return "", err
 	}
 	cp.writer.Reset(cp.file)
